@@ -3,7 +3,8 @@ import CgtModel.Schwab
 
 Model: the converter after JSON decoding (rows → emitted items, skipped count, warnings). Proved:
 * `C18_buy_row_becomes_one_item`, `C18_sell_row_becomes_one_item` — each Buy/Sell row appends exactly
-  one BUY/SELL item with the same date, symbol, quantity, price and fees (absent fees = 0);
+  one BUY/SELL item with the same date, symbol, quantity, price and fees (absent, zero or negative fees = no
+  FEES clause: `feeOf`; `C18_fee_never_negative`);
 * `C18_cancel_removes_exactly_one` — a Cancel Sell removes exactly one identical sell (length − 1, the
   rest untouched in order) or, if there is none, removes nothing and adds a warning;
 * `C18_cancel_never_touches_buys_or_dividends`;
@@ -25,11 +26,11 @@ namespace Cgt.C18
 open Cgt Cgt.Schwab
 
 theorem C18_buy_row_becomes_one_item (all : List Row) (s : St) (d : Int) (sym : String) (q p : Rat) (f : Option Rat) :
-    (step all s (.buy d sym q p f)).items = s.items ++ [.buy d sym q p (f.getD 0)] ∧
+    (step all s (.buy d sym q p f)).items = s.items ++ [.buy d sym q p (feeOf f)] ∧
     (step all s (.buy d sym q p f)).skipped = s.skipped := ⟨rfl, rfl⟩
 
 theorem C18_sell_row_becomes_one_item (all : List Row) (s : St) (d : Int) (sym : String) (q p : Rat) (f : Option Rat) :
-    (step all s (.sell d sym q p f)).items = s.items ++ [.sell d sym q p (f.getD 0)] := rfl
+    (step all s (.sell d sym q p f)).items = s.items ++ [.sell d sym q p (feeOf f)] := rfl
 
 theorem C18_cancel_removes_exactly_one (c : Int × String × Rat × Rat) : ∀ (items items' : List Item),
     removeFirst c items = some items' →
@@ -114,5 +115,13 @@ theorem C18_symbolless_withholding_vanishes (all : List Row) (s : St) (d : Int) 
 
 example : applyCancels [(5, "A", 1, 2)] ([.sell 5 "A" 1 2 0, .sell 5 "A" 1 2 0, .buy 3 "A" 1 1 0], 0)
     = ([.sell 5 "A" 1 2 0, .buy 3 "A" 1 1 0], 0) := by decide +kernel
+
+/-- an emitted line never carries a negative fee (the DSL could not express it), and carries the row's fee
+    whenever that is positive -/
+theorem C18_fee_never_negative (f : Option Rat) : 0 ≤ feeOf f ∧ (∀ x, f = some x → 0 < x → feeOf f = x) := by
+  unfold feeOf
+  constructor
+  · split <;> grind
+  · intro x hx hpos; subst hx; simp [hpos]
 
 end Cgt.C18
